@@ -270,6 +270,8 @@ def gen_vocab_family(rng):
         ty = i % ntypes if i < ntypes else rng.randrange(ntypes)
         svcs.append({"owner": 0 if (i < 2 or nh == 2) else rng.choice([0, 2]), "ty": ty, "case": svc_case(rng, tcase, ty, 0.6)})
         if rng.random() < 0.25:
+            svcs[-1]["long"] = True
+        if rng.random() < 0.25:
             svcs[-1]["ip"] = rng.choice(["v6", "dual"])
         ops.append([hosts[svcs[-1]["owner"]]["up"] + rng.randint(0, 600), "register", i])
     tys = sorted(rng.sample(range(ntypes), rng.choice([2, ntypes])))
@@ -344,9 +346,32 @@ def gen_multipacket_family(rng, single=False):
     return link_variant(rng, case, 0.25)
 
 
+def gen_addr_family(rng):
+    """third review, escape mE: an `update` that moves the service to another address (the only service of its host, so that nothing
+    else advertises the old one); browsers that are there before, and one that starts 5-20 s after the update and resolves from its
+    host's cache -- the cache-flush rule has to have removed the old address record by then"""
+    nh = rng.choice([2, 3])
+    sv = {"owner": 0, "ty": 0}
+    if rng.random() < 0.4:
+        sv["ip"] = rng.choice(["v6", "dual"])
+    if rng.random() < 0.3:
+        sv["long"] = True
+    tu = rng.choice([3000, 5000, rng.randint(2500, 9000)])
+    ops = [[rng.choice([0, 100]), "browse", 1, 0], [rng.randint(200, 800), "register", 0], [tu, "update", 0, {"addr": 1}]]
+    if rng.random() < 0.4:
+        ops.append([tu + rng.choice([2000, 4000]), "update", 0, {"addr": rng.choice([0, 2])}])
+    ops.append([tu + rng.choice([7000, 11000, 20000]), "browse", nh - 1, 0])
+    ops.sort(key=lambda o: (o[0], o[1]))
+    case = {"simseed": rng.randrange(1 << 30), "hosts": [{"up": 0} for _ in range(nh)], "types": 1, "svcs": [sv], "ops": ops, "family": "address-change",
+            "net": {"seed": rng.randrange(1 << 30), "mode": rng.choice(["uniform", "extreme", "mixed"]), "drop": None, "dups": rng.choice(["none", "some"])}}
+    return link_variant(rng, case, 0.3)
+
+
 def gen_case(rng, idx=0, long_p=0.05):
     if idx == 6 or (idx > 6 and rng.random() < 0.02):
         return gen_unreg_close_family(rng)
+    if idx == 13 or (idx > 13 and rng.random() < 0.02):
+        return gen_addr_family(rng)
     if idx in (7, 8, 9) or (idx > 9 and rng.random() < 0.08):
         return gen_vocab_family(rng)
     if idx in (10, 11, 12) or (idx > 12 and rng.random() < 0.03):
@@ -388,6 +413,8 @@ def gen_case(rng, idx=0, long_p=0.05):
         k = svc_case(rng, tcase, ty, 0.25)  # mixed-case type / instance label / host name
         if k:
             svcs[-1]["case"] = k
+        if rng.random() < 0.1:
+            svcs[-1]["long"] = True  # an instance label of 45 bytes
         t = hosts[owner]["up"] + rng.choice([0, 1, rng.randint(0, 400), rng.randint(0, 4000), rng.randint(0, 8000)])
         ops.append([t, "register", s])
         last_reg_on_host[owner] = max(last_reg_on_host.get(owner, 0), t)
@@ -521,9 +548,15 @@ def spell_type(ty, k=0):
     return t
 
 
+SVC_LONG = set()  # services of the current case whose instance label is 45 bytes long (set by run_case, like SVC_TY)
+
+
 def svc_name(i, ty, k=0):
-    """instance name; bit 1 of k = upper-case instance label"""
-    return ("S%d." if k & 2 else "s%d.") % i + spell_type(ty, k)
+    """instance name; bit 1 of k = upper-case instance label; services in SVC_LONG get a label of more than 32 bytes"""
+    lab = ("S%d" if k & 2 else "s%d") % i
+    if i in SVC_LONG:
+        lab += "-" + ("Long" if k & 2 else "long") * 10 + "x" * (3 - len(str(i)))
+    return lab + "." + spell_type(ty, k)
 
 
 def host_name(h, k=0):
@@ -579,11 +612,15 @@ def run_case(case, proj=False):
     sim = vsim.Sim(case["simseed"], maxdelay=100)
     plan = Plan(case["net"])
     svcs = [dict(sv) for sv in case["svcs"]]  # (an `update` op may change a service's TTLs)
+    SVC_LONG.clear()
+    SVC_LONG.update(i for i, s in enumerate(svcs) if s.get("long"))
     names = {svc_name(i, s["ty"]).lower(): i for i, s in enumerate(svcs)}
     stack = case.get("stack", "4")
     listen = bool(case.get("listen"))
     SVC_TY.clear()
     SVC_TY.update({i: s["ty"] for i, s in enumerate(svcs)})
+    SVC_LONG.clear()
+    SVC_LONG.update(i for i, s in enumerate(svcs) if s.get("long"))
     trace = []  # abstract events
     memo = {}
     net = sim.net
@@ -736,11 +773,12 @@ def run_case(case, proj=False):
             kw["other_ttl"] = s["other_ttl"]  # TTL of the PTR (and TXT) record
         if s.get("host_ttl") is not None:
             kw["host_ttl"] = s["host_ttl"]  # TTL of SRV / address records
-        addrs = [socket.inet_aton(h.ip)]
+        a = s.get("addr", 0)  # (an `update` may move the service to another address: [t, "update", i, {"addr": k}])
+        addrs = [socket.inet_aton(h.ip if not a else "10.0.%d.%d" % (a, s["owner"] + 1))]
         if s.get("ip") == "v6":
-            addrs = [socket.inet_pton(socket.AF_INET6, "2001:db8::%x" % (s["owner"] + 1))]
+            addrs = [socket.inet_pton(socket.AF_INET6, "2001:db8:%x::%x" % (a, s["owner"] + 1))]
         elif s.get("ip") == "dual":
-            addrs.append(socket.inet_pton(socket.AF_INET6, "2001:db8::%x" % (s["owner"] + 1)))
+            addrs.append(socket.inet_pton(socket.AF_INET6, "2001:db8:%x::%x" % (a, s["owner"] + 1)))
         k = s.get("case", 0)
         props = {"k": "v%d" % ver, "i": str(i)}
         for j in range(0, s.get("txt", 0), 200):  # a TXT record of about `txt` bytes (items of at most 255)
@@ -1505,7 +1543,11 @@ def oracle(case, obs):
             or (allv[k + 1].get("kind", "upd") == "upd" and allv[k + 1]["t"] + UPDATE_GRACE_MS >= lk["t0"]))]
         # addresses belong to the host name: the lookup returns the service's own addresses, possibly together with addresses that
         # other services advertised for the same host name
-        host_addrs = {ad for vv in obs["versions"] for x in vv if x["server"].lower() == (lk["server"] or "").lower() for ad in x["addrs"]}
+        # (third review, escape mE: of the looked-up service's OWN versions only those acceptable while the lookup runs count -- an
+        # address it has moved away from is a wrong answer; what other services ever advertised under the host name still counts:
+        # an unregistered service does not withdraw addresses its host shares, and their timing is not this lookup's business)
+        host_addrs = {ad for x in vs for ad in x["addrs"]} | {
+            ad for i, vv in enumerate(obs["versions"]) if i != s for x in vv if x["server"].lower() == (lk["server"] or "").lower() for ad in x["addrs"]}
         if not any(x["port"] == lk["port"] and x["server"] == lk["server"] and x["txt"] == lk["txt"]
                    and set(x["addrs"]) <= set(lk["addrs"]) <= host_addrs for x in vs):
             cause = lookup_wrong_cause(case, obs, lk, vs, allv)
@@ -1571,6 +1613,37 @@ def shadow_cache(obs, host, name, t_hi):
     return {key: v[0] for key, v in cache.items() if v[1] > t_hi}
 
 
+def shadow_addresses(obs, host, server, t_hi):
+    """`shadow_cache` for the address records of host name `server`: {address hex: last received} of the records alive in `host`'s
+    cache at t_hi by the cache rules applied to the deliveries its listener PROCESSED (flush per record type A / AAAA)"""
+    from zeroconf import DNSIncoming
+    from zeroconf._dns import DNSAddress
+
+    ign = {x[0] for x in obs.get("ignored", [])}
+    cache = {}
+    memo = obs.setdefault("_parsed", {})
+    for pos, e in enumerate(obs["trace"]):
+        if e[1] != "dlv" or e[4] != host or e[0] > t_hi or pos in ign:
+            continue
+        recs = memo.get(e[2])
+        if recs is None:
+            m = DNSIncoming(bytes.fromhex(obs["datagrams"][e[2]][4]))
+            recs = memo[e[2]] = [] if (not m.valid or m.is_query()) else m.answers()
+        t = e[0]
+        mine = [((r.type, r.address.hex()), r) for r in recs if isinstance(r, DNSAddress) and r.name.lower() == server]
+        for key, r in mine:
+            if r.ttl == 0:
+                cache.pop(key, None)
+            else:
+                cache[key] = [t, t + 1000 * r.ttl]
+        for kind in {key[0] for key, r in mine if r.unique and r.ttl > 0}:
+            present = {key for key, r in mine}
+            for key, v in cache.items():
+                if key[0] == kind and key not in present and t - v[0] > 1000:
+                    v[0], v[1] = t, t + 1000
+    return {key[1]: v[0] for key, v in cache.items() if v[1] > t_hi}
+
+
 def lookup_wrong_cause(case, obs, lk, vs, allv):
     """classify a wrong lookup result from the INPUT side (what reached the host), never from the library's state.
 
@@ -1583,6 +1656,19 @@ def lookup_wrong_cause(case, obs, lk, vs, allv):
 
     bh = obs["browsers"][lk["b"]]["host"]
     name = svc_name(lk["s"], case["svcs"][lk["s"]]["ty"]).lower()
+    cur_ok = [x for x in vs if x["port"] == lk["port"] and x["server"] == lk["server"] and x["txt"] == lk["txt"] and set(x["addrs"]) <= set(lk["addrs"])]
+    if cur_ok:
+        # everything is the advertised version's except that addresses the service has moved away from are still returned.  Known
+        # finding F5 when, by the shadow of the host's cache, those address records are legitimately alive: received less than a
+        # second before the update (so its first announcement must not flush them, RFC 6762 10.2) while the announcements that
+        # would have flushed them a second later -- verbatim repeats -- were dropped by the duplicate-packet guard.  A tree that
+        # skips the flush rule for address records is not covered: the shadow cache has flushed them
+        own_old = {ad for x in allv for ad in x["addrs"]}
+        extra = set(lk["addrs"]) - {ad for x in cur_ok for ad in x["addrs"]}
+        alive = shadow_addresses(obs, bh, (lk["server"] or "").lower(), lk["t1"])
+        if extra and extra <= own_old and all(ad in alive for ad in extra):
+            return "withdrawn-address-outlives-the-flush-rule"
+        return ""
     old = [k for k, x in enumerate(allv) if x not in vs and x["t"] <= lk["t1"] and x["port"] == lk["port"] and x["server"] == lk["server"]
            and x["txt"] == lk["txt"]]
     if old:
@@ -1853,7 +1939,8 @@ def resurrection_cause(case, obs, s, host=None):
 
 KNOWN_SIGS = {"C07:goodbyes-cut-by-close", "C07:not-removed:goodbyes-cut-by-close", "C07:lookup-from-added-wrong:success-without-txt",
               "C07:not-added:type-spelled-in-another-case", "C07:lookup-from-added-wrong:last-inserted-record-preferred-to-the-most-recently-received",
-              "C07:not-removed:goodbye-repeats-ignored-by-the-other-sockets-duplicate-guard"}
+              "C07:not-removed:goodbye-repeats-ignored-by-the-other-sockets-duplicate-guard",
+              "C07:lookup-from-added-wrong:withdrawn-address-outlives-the-flush-rule"}
 
 
 def train_of(obs, t, h, dst_of=None):
